@@ -40,11 +40,11 @@ pub fn c17_atan2_axes() {
 uf_tf!(T_ATAN, 2, fn uf_atan<>(x: TwoFloat) -> TwoFloat, key = k2(x));
 
 //@ id=C17 tier=quick to=1800 cfg=std exh=1 stub=1 stubs="TwoFloat::atan, &TwoFloat/&TwoFloat, &TwoFloat+&TwoFloat, &TwoFloat-&TwoFloat -> recording UFs" desc="atan2 quadrant correction for all valid operands off the axes: a = atan(y/x); x > 0 gives a, x < 0 gives a + pi for y > 0 and a - pi for y < 0 (pi = mpmath words)"
-#[cfg_attr(kani, kani::proof)]
-#[cfg_attr(kani, kani::stub(twofloat::TwoFloat::atan, uf_atan))]
-#[cfg_attr(kani, kani::stub(<&twofloat::TwoFloat as core::ops::Div<&twofloat::TwoFloat>>::div, crate::uf::uf_div_tt))]
-#[cfg_attr(kani, kani::stub(<&twofloat::TwoFloat as core::ops::Add<&twofloat::TwoFloat>>::add, crate::uf::uf_add_tt))]
-#[cfg_attr(kani, kani::stub(<&twofloat::TwoFloat as core::ops::Sub<&twofloat::TwoFloat>>::sub, crate::uf::uf_sub_tt))]
+#[cfg_attr(all(kani, feature = "stubs"), kani::proof)]
+#[cfg_attr(all(kani, feature = "stubs"), kani::stub(twofloat::TwoFloat::atan, uf_atan))]
+#[cfg_attr(all(kani, feature = "stubs"), kani::stub(<&twofloat::TwoFloat as core::ops::Div<&twofloat::TwoFloat>>::div, crate::uf::uf_div_tt))]
+#[cfg_attr(all(kani, feature = "stubs"), kani::stub(<&twofloat::TwoFloat as core::ops::Add<&twofloat::TwoFloat>>::add, crate::uf::uf_add_tt))]
+#[cfg_attr(all(kani, feature = "stubs"), kani::stub(<&twofloat::TwoFloat as core::ops::Sub<&twofloat::TwoFloat>>::sub, crate::uf::uf_sub_tt))]
 pub fn c17_atan2_quadrants() {
     let y = any_valid();
     let x = any_valid();
